@@ -1065,7 +1065,7 @@ class Engine:
                 # a long concrete walk over a known sequence: forget the position, the rest of the walk is generic
                 for root, cur in list(st.mem.items()):
                     if root[0] == 'L' and root[1] == fr.fid and isinstance(cur, tuple) and cur and cur[0] == 'iter' and \
-                            cur[1] in ('seq', 'val', 'map', 'zip') and root[2] in assigned | self.iter_locals(fr.body, blocks):
+                            cur[1] in ('seq', 'val', 'map', 'zip', 'successors') and root[2] in assigned | self.iter_locals(fr.body, blocks):
                         st.mem[root] = ('iter', 'abstract', self.purify(st, cur))
             # conditions on loop-variant terms do not carry over to the next iteration
             for c in [c for c in st.asm if mentions_loop(c, lid)]:
